@@ -7,7 +7,7 @@ use std::process::{Command, Stdio};
 
 fn run_cli(cli: &Path, args: &[&str], cwd: &Path) -> (String, Vec<u8>, Vec<u8>) {
     let mut child = match Command::new("timeout")
-        .arg("10")
+        .arg("60")
         .arg(cli)
         .args(args)
         .current_dir(cwd)
@@ -151,6 +151,12 @@ pub fn run(opts: &Opts) -> i32 {
     let mut first: std::collections::HashMap<(usize, usize), (String, String)> = Default::default();
     let mut bad: std::collections::HashSet<(usize, usize)> = Default::default();
     for (f, c, _r, d, status, size) in &results {
+        if status == "Some(124)" {
+            // killed at the time limit (a program waiting for input for ever, a large listing on a
+            // loaded machine): how far it got is a matter of timing, not of the tool
+            sink.count("timed_out_not_compared");
+            continue;
+        }
         match first.get(&(*f, *c)) {
             | None => {
                 first.insert((*f, *c), (d.clone(), status.clone()));
@@ -173,6 +179,9 @@ pub fn run(opts: &Opts) -> i32 {
         let mut seen: Vec<(String, String, String)> = Vec::new();
         for _ in 0..8 {
             let (s, o, e) = run_cli(&cli, &argv, cwd);
+            if s == "Some(124)" {
+                continue;
+            }
             let e = mask_thread_ids(&e);
             let item = (s, String::from_utf8_lossy(&o).to_string(), String::from_utf8_lossy(&e).to_string());
             if !seen.contains(&item) {
